@@ -236,7 +236,15 @@ class Gen:
                     if s != "" and "\n" not in s and "\r" not in s and len(s) < 400:
                         parts += [hexs(s), sd]
                 if parts:
-                    ops.append("L " + " ".join(parts))
+                    # the same lines as a file whose lines end in "\n", whose LAST line has no line terminator (LN), or whose lines
+                    # end in "\r\n" (the carriage return is then part of the line the parser sees)
+                    v = r.random()
+                    if v < 0.25:
+                        ops.append("LN " + " ".join(parts))
+                    elif v < 0.4:
+                        ops.append("L " + " ".join((x + "0d") if k2 % 2 == 0 else x for k2, x in enumerate(parts)))
+                    else:
+                        ops.append("L " + " ".join(parts))
             elif k < 92:
                 ops.append("X")
             elif k < 96:
@@ -361,8 +369,8 @@ def strip_sd(op):
     t = op.split()
     if t[0] == "P":
         return "P " + t[1]
-    if t[0] == "L":
-        return "L " + " ".join(t[1::2])
+    if t[0] in ("L", "LN"):
+        return t[0] + " " + " ".join(t[1::2])
     return op
 
 
